@@ -754,6 +754,7 @@ class C11(OwnProfile):
         c = super().config(r)
         c["steps"] = r.randrange(40, 80)
         c["kind_weights"] = {"ir": 0.8, "mod": 1.0, "sec": 0.8, "bi": 0.8, "cb": 3.0, "db": 0.2, "px": 2.0, "sym": 0.1}
+        c["p_cfg_none_endpoint"] = r.choice([0.0, 0.02, 0.05])
         return c
 
     def after(self, w, op, out):
